@@ -806,7 +806,11 @@ func (db *DB) writeToLSM(b *request) error {
 
 	for i, entry := range b.Entries {
 		var err error
-		if entry.skipVlogAndSetThreshold(db.valueThreshold()) {
+		// In InMemory mode there is no value log (b.Ptrs is empty): every value is stored
+		// inline. Txn.modify admits values up to and including the value threshold there, while
+		// skipVlogAndSetThreshold keeps only shorter ones inline, so a value of exactly the
+		// threshold length used to index the empty b.Ptrs and panic.
+		if db.opt.InMemory || entry.skipVlogAndSetThreshold(db.valueThreshold()) {
 			// Will include deletion / tombstone case.
 			err = db.mt.Put(entry.Key,
 				y.ValueStruct{
